@@ -258,3 +258,123 @@ theorem readSample_file (l : Str) (s : Sample) (h : readSample l = .ok s) : ',' 
   · simp at h
 
 end Reamber.Osu
+
+namespace Reamber.Osu
+
+/-! ### the last field of a trimmed line -/
+
+theorem dropWhile_head {α} (p : α → Bool) (l : List α) (a : α) (r : List α) (h : l.dropWhile p = a :: r) :
+    p a = false := by
+  induction l with
+  | nil => simp at h
+  | cons x xs ih =>
+    rw [List.dropWhile_cons] at h
+    by_cases hx : p x = true
+    · simp only [hx, if_true] at h; exact ih h
+    · simp only [hx, Bool.false_eq_true, if_false] at h
+      injection h with h1 _
+      subst h1; simpa using hx
+
+theorem mem_dropWhile {α} (p : α → Bool) (l : List α) (a : α) (h : a ∈ l.dropWhile p) : a ∈ l :=
+  (List.dropWhile_sublist p).subset h
+
+/-- a trimmed text does not end in white space and has only characters of the original -/
+theorem strip_facts (x : Str) : (∀ t a, strip x = t ++ [a] → isWs a = false) ∧ ∀ ch ∈ strip x, ch ∈ x := by
+  unfold strip rstrip lstrip
+  constructor
+  · intro t a h
+    have := congrArg List.reverse h
+    simp only [List.reverse_reverse, List.reverse_append, List.reverse_cons, List.reverse_nil, List.nil_append,
+      List.singleton_append] at this
+    exact dropWhile_head isWs _ a _ this
+  · intro ch hch
+    have h1 : ch ∈ (List.dropWhile isWs x).reverse := mem_dropWhile isWs _ ch (by simpa using hch)
+    exact mem_dropWhile isWs x ch (by simpa using h1)
+
+theorem joinWith_suffix (c : Char) (L : List Str) (f : Str) : ∃ P, joinWith c (L ++ [f]) = P ++ f := by
+  induction L with
+  | nil => exact ⟨[], rfl⟩
+  | cons p t ih =>
+    obtain ⟨P, hP⟩ := ih
+    cases ht : t ++ [f] with
+    | nil => simp at ht
+    | cons q r =>
+      refine ⟨p ++ c :: P, ?_⟩
+      show joinWith c (p :: (t ++ [f])) = _
+      rw [ht] at hP ⊢
+      show p ++ c :: joinWith c (q :: r) = _
+      rw [hP]; simp
+
+theorem last_piece_suffix (c : Char) (s : Str) (L : List Str) (f : Str) (h : splitOn c s = L ++ [f]) :
+    ∃ P, s = P ++ f := by
+  have := joinWith_splitOn c s
+  rw [h] at this
+  obtain ⟨P, hP⟩ := joinWith_suffix c L f
+  exact ⟨P, by rw [← this, hP]⟩
+
+def Obj.fileOf : Obj → Str
+  | .hit x => x.file
+  | .hold x => x.file
+
+/-- the file name of an object read from a line is the end of that line -/
+theorem denoteObj_file_suffix (k : Int) (line : Str) (o : Obj) (h : denoteObj k line = .ok (some o)) :
+    ∃ P, line = P ++ o.fileOf := by
+  unfold denoteObj at h
+  split at h
+  · next fx fy ft fty fhs fex hs =>
+    obtain ⟨P1, hP1⟩ := last_piece_suffix ',' line [fx, fy, ft, fty, fhs] fex (by rw [hs]; rfl)
+    obtain ⟨ty, _, h⟩ := bind_ok_inv _ _ _ h
+    obtain ⟨t, _, h⟩ := bind_ok_inv _ _ _ h
+    obtain ⟨x, _, h⟩ := bind_ok_inv _ _ _ h
+    obtain ⟨hsn, _, h⟩ := bind_ok_inv _ _ _ h
+    by_cases hb0 : bit ty 0 = true
+    · simp only [hb0, if_true] at h
+      split at h
+      · next a b c d f hcl =>
+        obtain ⟨P2, hP2⟩ := last_piece_suffix ':' fex [a, b, c, d] f (by rw [hcl]; rfl)
+        obtain ⟨va, _, h⟩ := bind_ok_inv _ _ _ h
+        obtain ⟨vb, _, h⟩ := bind_ok_inv _ _ _ h
+        obtain ⟨vc, _, h⟩ := bind_ok_inv _ _ _ h
+        obtain ⟨vd, _, h⟩ := bind_ok_inv _ _ _ h
+        simp only [pure, Except.pure, Except.ok.injEq, Option.some.injEq] at h
+        subst h
+        refine ⟨P1 ++ P2, ?_⟩
+        show line = (P1 ++ P2) ++ f
+        rw [hP1, hP2, List.append_assoc]
+      · simp [throw, throwThe, MonadExceptOf.throw] at h
+    · simp only [hb0, Bool.false_eq_true, if_false] at h
+      by_cases hb7 : bit ty 7 = true
+      · simp only [hb7, if_true] at h
+        split at h
+        · next e a b c d f hcl =>
+          obtain ⟨P2, hP2⟩ := last_piece_suffix ':' fex [e, a, b, c, d] f (by rw [hcl]; rfl)
+          obtain ⟨ve, _, h⟩ := bind_ok_inv _ _ _ h
+          obtain ⟨va, _, h⟩ := bind_ok_inv _ _ _ h
+          obtain ⟨vb, _, h⟩ := bind_ok_inv _ _ _ h
+          obtain ⟨vc, _, h⟩ := bind_ok_inv _ _ _ h
+          obtain ⟨vd, _, h⟩ := bind_ok_inv _ _ _ h
+          simp only [pure, Except.pure, Except.ok.injEq, Option.some.injEq] at h
+          subst h
+          refine ⟨P1 ++ P2, ?_⟩
+          show line = (P1 ++ P2) ++ f
+          rw [hP1, hP2, List.append_assoc]
+        · simp [throw, throwThe, MonadExceptOf.throw] at h
+      · simp [hb7, pure, Except.pure] at h
+  · simp at h
+
+/-- **the file name of an object read from a trimmed, line-break-free line can stand at the end of a written line**:
+it contains no line break and does not end in white space -/
+theorem denoteObj_tailOk (k : Int) (x : Str) (hx : '\n' ∉ x) (o : Obj) (h : denoteObj k (strip x) = .ok (some o)) :
+    TailOk o.fileOf := by
+  obtain ⟨P, hP⟩ := denoteObj_file_suffix k (strip x) o h
+  obtain ⟨s1, s2⟩ := strip_facts x
+  constructor
+  · intro hm
+    apply hx
+    apply s2
+    rw [hP]; simp [hm]
+  · intro t a hf
+    apply s1 (P ++ t) a
+    rw [hP, hf]; simp
+
+end Reamber.Osu
